@@ -33,7 +33,7 @@ ASSUMPTIONS = [
 ]
 BUDGET = {"quick": {"examples": 1600}, "thorough": {"examples": 40000, "deadline_s": 1500}}
 
-CFG = gen.cfg(max_syms=8, string_tier="B")
+CFG = gen.cfg(max_syms=8, string_tier="U")
 SENTINEL_NS = 1_000_000_000 * 1_600_000_000  # 2020-09-13
 STATS = {"crash_points": 0}
 
@@ -71,7 +71,8 @@ def _apply(k, assign):
 
 def _read(path):
     try:
-        with open(path, encoding="utf-8") as f:
+        # a crash may cut a multi-byte character in half: such a file is simply not equal to any complete configuration
+        with open(path, encoding="utf-8", errors="surrogateescape") as f:
             return f.read()
     except OSError:
         return None
